@@ -183,6 +183,10 @@ def default_cells(tier):
         if i < (2 if tier == "quick" else 8):
             yield {"detector": "CircularBinarySegmentation", "params": {}, "seed": seed, "n": 290 + 10 * i, "p": 1, "frame": False,
                    "kind": ("burst_short", "ends_strong")[i % 2]}
+    # a day of 1 Hz data with a start-up transient (groups of hundreds of thousands of (candidate, split) pairs per call: implementations
+    # that batch beyond some size)
+    for i, n in enumerate((100_000,) if tier == "quick" else (100_000, 93_000, 131_072)):
+        yield {"detector": "SeededBinarySegmentation", "params": {}, "seed": 25101 + i, "n": n, "p": 1, "frame": False, "kind": "ends_strong"}
     for det, vs in variants.items():
         for seed in range(8 if tier == "quick" else 32):
             for v in vs:
